@@ -343,7 +343,7 @@ func contains(l []string, s string) bool {
 
 func writeEvidence(spec *PropSpec, opts RunOpts, items []Item, results []*ItemResult, known []Finding, inconc []string, validated int, wall float64, nviol int) {
 	cov := map[string]interface{}{}
-	var paths, steps, obl, dis, triv int
+	var paths, steps, obl, dis, triv, relaxed int
 	var qs QueryStats
 	funcs := map[string]bool{}
 	var samples []interface{}
@@ -357,6 +357,7 @@ func writeEvidence(spec *PropSpec, opts RunOpts, items []Item, results []*ItemRe
 		obl += r.Obligations
 		dis += r.Discharged
 		triv += r.Trivial
+		relaxed += r.Relaxed
 		qs.add(&r.Stats)
 		for f := range r.Funcs {
 			if !strings.Contains(f, "verif") && !strings.Contains(f, "Verif") {
@@ -393,6 +394,7 @@ func writeEvidence(spec *PropSpec, opts RunOpts, items []Item, results []*ItemRe
 	cov["obligations"] = obl
 	cov["discharged"] = dis
 	cov["trivially_discharged"] = triv
+	cov["discharged_in_real_rounding_error_model"] = relaxed
 	cov["functions_encoded"] = fl
 	cov["work_items"] = len(items)
 	cov["shapes_per_harness"] = shapesBy
